@@ -101,7 +101,20 @@ def gen_cases(r: Run):
     return cases
 
 
+def merge_by_mass(l, tol=Fraction(1, 10 ** 7)):
+    """the property speaks of the peaks MERGED BY MASS: arrangements of equal mass (the same isotopes in another
+    order, or masses that differ in the 12th digit) sort differently in f64 and in exact arithmetic"""
+    out = []
+    for m, i in sorted(l):
+        if out and m - out[-1][0] <= tol:
+            out[-1] = (out[-1][0], out[-1][1] + i)
+        else:
+            out.append((m, i))
+    return out
+
+
 def sorted_close(a, b, tol=1e-9):
+    a, b = merge_by_mass(a), merge_by_mass(b)
     if len(a) != len(b):
         return False
     return all(close(x[0], y[0], rel=1e-12, abs_=1e-9) and close(x[1], y[1], rel=tol, abs_=1e-300) for x, y in zip(a, b))
